@@ -27,6 +27,24 @@ class Ctx:
     def inventory(self):
         return Inventory(self.F, self.cg)
 
+    def opcode_where(self, fn_path, min_arms=100):
+        """{opcode value: 'file:line (function)'} of the arms of the opcode match in fn_path, for reports"""
+        from dispatch import opcode_matches
+        out = {}
+        fn = self.F.fns.get(fn_path) if fn_path else None
+        if not fn:
+            return out
+        try:
+            ms = opcode_matches(fn, min_arms)
+        except Exception:
+            return out
+        for m in ms[:1]:
+            for a in m.arms:
+                if isinstance(a["consts"], set):
+                    for v in a["consts"]:
+                        out.setdefault(v, "%s (%s)" % (a["line"], fn_path))
+        return out
+
 
 class Row:
     """A discharge row for panic sites the analysis cannot prove by itself.
